@@ -179,6 +179,12 @@ pub fn activate(cfg: &Cfg) {
     ACTIVE.store(true, Ordering::SeqCst);
 }
 
+/// call first thing in a process forked from an execution: it is not under the scheduler
+pub fn after_fork_in_child() {
+    SCHED.store(false, Ordering::SeqCst);
+    TASK.with(|t| t.set(-1));
+}
+
 pub fn deactivate() {
     ACTIVE.store(false, Ordering::SeqCst);
     SCHED.store(false, Ordering::SeqCst);
